@@ -395,7 +395,10 @@ class Cli:
         if s != "" and not s.startswith("-") and rng.random() < 0.4 and not pending:
             return ["--input-string", s], None
         name = self.sb.fresh("input", rng.choice([".txt", ".in", ""]))
-        p = self.sb.write(name, s.encode("utf-8", "surrogateescape"), mode="wb")
+        data = s.encode("utf-8", "surrogateescape")
+        if rng.random() < 0.2:
+            data += b"\n"  # saved by an editor that terminates the last line
+        p = self.sb.write(name, data, mode="wb")
         # storage faults on the input land between the write and the command
         for f in pending:
             f["_used"] = True
@@ -572,14 +575,17 @@ class Cli:
             # A file's final newline may or may not belong to the input: the input is
             # valid iff it is valid as is, or valid without exactly one final newline.
             contents = [raw] + ([raw[:-1]] if raw.endswith("\n") else [])
-        verdicts = [self.expected_check(c) for c in contents]
-        if 0 in verdicts:
-            exp = {0}
-        elif None in verdicts:
-            self.bump("check_abstained")
-            return
-        else:
-            exp = {1}
+            # The content is read as the input as is if it is in the language, else
+            # without its final newline (which then is the file's, not the input's).
+        exp = {1}
+        for c in contents:
+            if self.recog.member(c) if len(c) <= 400 else False:
+                e = self.expected_check(c)
+                if e is None:
+                    self.bump("check_abstained")
+                    return
+                exp = {e}
+                break
         if code not in exp:
             if self.z3_trouble_since(0) and code == 1:
                 self.bump("check_reject_under_z3_trouble")
@@ -629,14 +635,18 @@ class Cli:
             if not os.path.isfile(outfile):
                 self.v("parse_no_output_file", "exit 0 but no output file", op_index)
                 return
-            with open(outfile) as f:
+            with open(outfile, encoding="utf-8", errors="surrogateescape", newline="") as f:
                 text = f.read()
         else:
             text = out
         y = self.json_tree_string(text, op_index)
         if y is None:
             return
-        allowed = {s} | ({s[:-1]} if s.endswith("\n") else set())
+        raw = s
+        if path is not None and os.path.isfile(path):
+            with open(path, "rb") as f:
+                raw = f.read().decode("utf-8", "surrogateescape")
+        allowed = {raw} | ({raw[:-1]} if raw.endswith("\n") else set())
         if y not in allowed:
             self.v("parse_tree_string_differs", f"tree yields {y[:80]!r}, input was {s[:80]!r}", op_index)
         # the emitted JSON tree is accepted by `isla check`
@@ -667,7 +677,7 @@ class Cli:
             self.v(f"{what}_accepts_unparsable_input", f"exit 0 for {s[:80]!r}", op_index)
         if code == 0:
             if outfile is not None and os.path.isfile(outfile):
-                with open(outfile) as f:
+                with open(outfile, encoding="utf-8", errors="surrogateescape", newline="") as f:
                     res = f.read()
             else:
                 res = out[:-1] if out.endswith("\n") else out
